@@ -54,4 +54,22 @@ PLAN = {
         "trusted_base": BASE_TRUST,
         "assumptions": BASE_ASSUME,
     },
+    "C12": {
+        "streams": {
+            "quick": [fs(200, 18, "C12"), fs(120, 16, "C12", wild=True)],
+            "thorough": [fs(3000, 22, "C12", timeout=5000), fs(2000, 20, "C12", wild=True, timeout=5000)],
+        },
+        "generated": [],
+        "trusted_base": BASE_TRUST,
+        "assumptions": BASE_ASSUME,
+    },
+    "C13": {
+        "streams": {
+            "quick": [fs(200, 18, "C13"), fs(120, 16, "C13", wild=True)],
+            "thorough": [fs(3000, 22, "C13", timeout=5000), fs(2000, 20, "C13", wild=True, timeout=5000)],
+        },
+        "generated": [],
+        "trusted_base": BASE_TRUST,
+        "assumptions": BASE_ASSUME,
+    },
 }
